@@ -307,7 +307,7 @@ def writearlpackedbit(infile, path):
             if propk in ('NX', 'NY', 'NZ'):
                 thead[propk] = '%3d' % props[propk]
             elif propk == 'LENH':
-                thead[propk] = '%4d' % datamap['vardef'][ti].itemsize
+                thead[propk] = '%4d' % props['LENH']
             else:
                 thead[propk] = getattr(infile, propk)
         timestr = time.strftime('%y%m%d%H').encode('ascii') + FF
@@ -334,8 +334,9 @@ def writearlpackedbit(infile, path):
             var_time['data'][ti] = CVAR
         for layk in laykeys:
             invar = infile.variables[layk.decode()]
-            var_time = datamap['layers'][layk.decode()][ti]
-            for li, var_time_lay in enumerate(var_time):
+            for li in range(props['NZ'] - 1):
+                var_lay = datamap['layers'][str(li + 1)][layk.decode()]
+                var_time_lay = var_lay[ti]
                 varhead = var_time_lay['head']
                 for varpropk in varhead.dtype.names:
                     if varpropk not in _skipprop:
@@ -358,10 +359,8 @@ def writearlpackedbit(infile, path):
             keys[vglvl] = laykeys
         vardef = writevardef(vglvls, keys, checksums)
 
-        datamap['vardef'][ti] = ' '.ljust(datamap['vardef'][ti].itemsize)
-        datamap['hdr'][ti] = ' '.ljust(datamap['hdr'][ti].itemsize)
+        datamap['hdr'][ti] = ' '.ljust(datamap['hdr'].dtype.itemsize)
         datamap['vardef'][ti] = vardef.encode('ascii')
-        thead['LENH'] = datamap['vardef'][ti].itemsize
 
     datamap.flush()
 
@@ -403,6 +402,8 @@ def maparlpackedbit(path, mode='r', shape=None, props=None):
         laylen = (6 + 2 + (4 + 3 + 1) *
                   len(props['laykeys'])) * (props['NZ'] - 1)
         props['LENH'] = 108 + srflen + laylen
+        props['laykeys'] = [(li, props['laykeys'])
+                            for li in range(1, props['NZ'])]
 
     nx = props['NX']
     ny = props['NY']
